@@ -54,6 +54,8 @@ EXC_BASES = {
     "UnboundLocalError": ["NameError", "Exception"], "NameError": ["Exception"],
     "StopIteration": ["Exception"], "ImportError": ["Exception"], "NotFittedError": ["ValueError", "AttributeError", "Exception"],
     "ExternalError": ["Exception"], "Exception": [], "FloatingPointError": ["ArithmeticError", "Exception"],
+    "Warning": ["Exception"], "RuntimeWarning": ["Warning", "Exception"], "UserWarning": ["Warning", "Exception"],
+    "DeprecationWarning": ["Warning", "Exception"], "FutureWarning": ["Warning", "Exception"],
 }
 
 
@@ -355,10 +357,14 @@ class Exec:
         is_static = "staticmethod" in func.decorators
         is_classm = "classmethod" in func.decorators
         pos = list(args)
-        if self_obj is not None and not is_static:
-            pos = [self_obj] + pos
         if is_classm:
-            raise Unsupported("classmethod call")
+            # cls is the class the method was reached through (an instance's class, the class itself, else the defining class)
+            klass = self_obj.cls if isinstance(self_obj, Obj) else (self_obj if isinstance(self_obj, RepoClass) else func.cls)
+            if not isinstance(klass, RepoClass):
+                raise Unsupported("classmethod call on %r" % (klass,))
+            pos = [klass] + pos
+        elif self_obj is not None and not is_static:
+            pos = [self_obj] + pos
         bound = {}
         if len(pos) > len(names):
             if params.vararg is None:
@@ -422,6 +428,8 @@ class Exec:
                 return r.value
             return None
         finally:
+            if self.inline_depth == 1:
+                self.ps["top_locals"] = frame.locals      # white-box postconditions of the function under contract may read them
             self.cur_func = saved
             self.inline_depth -= 1
 
@@ -809,6 +817,8 @@ class Exec:
                 L.bind_index(kk)
             for name, g in named(inv(self, L)).items():
                 self.assume(g)
+            if not self.feasible(z3.BoolVal(True) if not self.pc else self.pc[-1]):
+                raise PathEnd("infeasible")       # the invariant excludes this combination of havoced values
             if seq is not None:
                 self.assign(st.target, seq.item(kk), fr)
             else:
@@ -847,10 +857,16 @@ class Exec:
                 L.bind_index(L.k)
                 for name, g in named(inv(self, L)).items():
                     self.assume(g)
+                if not self.feasible(z3.BoolVal(True) if not self.pc else self.pc[-1]):
+                    raise PathEnd("infeasible")
                 # the loop variable keeps its last value (if the loop ran at all)
+                if isinstance(st.target, ast.Name) and self.branch(n > 0):
+                    self.assign(st.target, seq.item(z3.simplify(n - 1)), fr)
             else:
                 for name, g in named(inv(self, L)).items():
                     self.assume(g)
+                if not self.feasible(z3.BoolVal(True) if not self.pc else self.pc[-1]):
+                    raise PathEnd("infeasible")
                 if self.truth(self.eval(st.test, fr), st.test):
                     raise PathEnd("guard-true-at-exit")
             self.exec_block(st.orelse, fr)
@@ -948,7 +964,7 @@ class Exec:
                 return HavocNone(n)
             if self.choose([None, None]) == 0:
                 return None
-            return {"real": self.real, "int": self.int, "bool": self.bool, "str": self.str}[kind](n)
+            return self.fresh_of_kind(n, kind)
         if isinstance(cur, tuple):
             return tuple(self.havoc_value("%s_%d" % (n, i), c, True) for i, c in enumerate(cur))
         if isinstance(cur, Opaque):
@@ -1160,9 +1176,13 @@ class Exec:
         if isinstance(e.op, ast.Invert):
             if isinstance(v, NdArr) and v.kind == "bool":
                 return self.registry.arr_map(self, lambda a: z3.Not(a), [v], "bool")
+            if isinstance(v, NdArr) and v.kind == "int":
+                return self.registry.arr_map(self, lambda a: -a - 1, [v], "int")      # two's complement: ~x == -x-1
             if isinstance(v, int):
                 return ~v
-        raise Unsupported("unary op")
+            if is_sym(v) and z3.is_int(v):
+                return -v - 1
+        raise Unsupported("unary op %s on %r" % (type(e.op).__name__, v))
 
     def ex_BoolOp(self, e, fr):
         # short-circuit with forking: exact Python semantics (value of the deciding operand)
